@@ -219,6 +219,11 @@ class Program:
             return None
         oc, fn = self.find_method(c, name)
         if fn is None:
+            # a method bound by a class-level assignment (`load_uint = _consuming('preload_uint')`): an anchor for locations; calls go
+            # through the interpreter's attribute lookup, which evaluates the class attribute
+            for k in self.mro(c):
+                if name in k.class_attrs:
+                    return AttrAnchor(k.class_attrs[name], k.module, k, name)
             if required:
                 raise AnalysisError(f'anchor {clsname}.{name} not found')
             return None
@@ -254,13 +259,23 @@ class Program:
         return out
 
     def where(self, f_or_node, module=None):
-        if isinstance(f_or_node, FuncRef):
+        if isinstance(f_or_node, (FuncRef, AttrAnchor)):
             m = self.modules.get(f_or_node.module)
             p = os.path.relpath(m.path, os.path.dirname(self.pkg)) if m else f_or_node.module
             return f'{p}:{getattr(f_or_node.node, "lineno", 0)}'
         m = self.modules.get(module) if module is not None else None
         p = os.path.relpath(m.path, os.path.dirname(self.pkg)) if m else (module or '?')
         return f'{p}:{getattr(f_or_node, "lineno", 0)}'
+
+
+class AttrAnchor:
+    """a class attribute that holds a callable built by an expression (not a def): carries the location only"""
+    def __init__(self, node, module, cls, name):
+        self.node, self.module, self.cls, self.name = node, module, cls, name
+        self.qual = f'{cls.name}.{name}'
+
+    def decorators(self):
+        return []
 
 
 # ------------------------------------------------------------------ small syntactic helpers used by several rules
